@@ -11,14 +11,14 @@
 //!
 //! Case lines
 //!   x1 <floor|abs> <be> <a>                 -> <bits>
-//!   x2 rem_euclid <be> <a> <m>              -> <bits>
+//!   x2 rem_euclid <be> <a> <m>              -> <bits> <std's bits>
 //!   dx <floor|abs> <be> <start> <count>     -> <fnv> <nwrong>           consecutive bit patterns
 //!   ap <fn> <be> <kind>:<bound> <a> [<b>]   -> <impl bits> <std bits>
 //!   sw <fn> <be> <kind>:<bound> <start> <count> <stride> [<b>] -> <nexceed> <nbranchcut> <maxerr> <argmax bits> <n>
 //!   rsq <be> <a>                            -> <bits>                   recip_sqrt
 //!   rh <be> <x>                             -> <xs.start> <xs.end> <y> <nrows>   round_up_to_half via scan
 //!   tx <be> <rep|cl> <dw> <dh> <u> <v>      -> "<u>,<v>" | panic          texture addressing (sample_abs)
-//!   wrap <be> <a> <min> <max>               -> <bits>                    Angle::wrap (radians)
+//!   wrap <be> <a> <min> <max>               -> <bits> <std's bits>       Angle::wrap (radians)
 //!   norm <be> <x> <y> <z>                   -> <bits> <bits> <bits>      Vec3::normalize
 //!   rs <op> <args…>                         -> Rust's own f32 semantics (validates Retro.Model.F32Ops)
 //!   drs <floor|i32|u32> <start> <count>     -> <fnv>
@@ -114,7 +114,8 @@ fn limit(b: Bound) -> f64 {
 fn run(t: &[&str]) -> String {
     match t[0] {
         "x1" => value(t[2], t[1], pf32(t[3]), 0.0),
-        "x2" => value(t[2], t[1], pf32(t[3]), pf32(t[4])),
+        // second token: std's result for the same arguments (the reference of the "behave the same" clause)
+        "x2" => format!("{} {}", value(t[2], t[1], pf32(t[3]), pf32(t[4])), value("std", t[1], pf32(t[3]), pf32(t[4]))),
         "rsq" => value(t[1], "recip_sqrt", pf32(t[2]), 0.0),
         "dx" => {
             let (f, be) = (t[1], t[2]);
@@ -204,10 +205,13 @@ fn run(t: &[&str]) -> String {
             "std" => ops::tx(t[2], pint(t[3]) as u32, pint(t[4]) as u32, pf32(t[5]), pf32(t[6])),
             be => ask(be, &format!("tx {} {} {} {} {}", t[2], t[3], t[4], t[5], t[6])),
         },
-        "wrap" => match t[1] {
-            "std" => ops::wrap(pf32(t[2]), pf32(t[3]), pf32(t[4])),
-            be => ask(be, &format!("wrap {} {} {}", t[2], t[3], t[4])),
-        },
+        "wrap" => {
+            let std = ops::wrap(pf32(t[2]), pf32(t[3]), pf32(t[4]));
+            match t[1] {
+                "std" => format!("{std} {std}"),
+                be => format!("{} {std}", ask(be, &format!("wrap {} {} {}", t[2], t[3], t[4]))),
+            }
+        }
         "norm" => match t[1] {
             "std" => ops::norm(pf32(t[2]), pf32(t[3]), pf32(t[4])),
             be => ask(be, &format!("norm {} {} {}", t[2], t[3], t[4])),
